@@ -18,7 +18,8 @@ from concurrent.futures import ThreadPoolExecutor
 
 from harness import engine_common as E
 from harness.core import ROOT, InfraError
-from harness.gen_c13_tables import render, sites
+from harness import c13_shared
+from harness.gen_c13_tables import render, render_shared, sites
 
 logging.getLogger("werkzeug").setLevel(logging.ERROR)
 
@@ -52,6 +53,7 @@ RAWS = {
 
 def prepare(chk):
     chk.write_generated("C13", render())
+    chk.write_generated("C13Shared", render_shared())
 
 
 def child(cfg, hashseed):
@@ -84,6 +86,8 @@ def signature(cfg, kind):
 
 
 def run(chk):
+    # the state shared by worker threads first: forced interleavings on the real schema object (harness/c13_shared.py)
+    c13_shared.run_shared(chk)
     rng = chk.rng
     ss, derand = sites()
     classes = Counter(c for *_, c in ss)
@@ -192,6 +196,8 @@ def run(chk):
 
 
 def replay(chk, data):
+    if isinstance(data.get("replay"), dict) and data["replay"].get("kind") in ("forced", "sequential", "engine", "double-run"):
+        return c13_shared.replay_shared(chk, data)
     print(data.get("what"))
     print(json.dumps(data.get("replay"), indent=1, default=str)[:4000])
     return 0
